@@ -65,6 +65,19 @@ def run(c):
     n = 300 if c.tier == "quick" else 3000
     nrd = 200 if c.tier == "quick" else 3000
     out = None
+    # the node side of the order switch: whatever API one process uses towards one remote process (Send, SendWithPriority,
+    # SendAfter from its timer goroutine; by pid / name / alias) the messages keep the network order - two real nodes over
+    # loopback, the first message slow to decode on the receiving node
+    if c.replay and _replay_engine(c.replay).startswith("delayed-order"):
+        out = c.harness("netfail", ["delayed", "-replay", c.replay], timeout=600)
+        if out:
+            c.monitor("delayed-order", out)
+        return
+    if not c.replay:
+        out = c.harness("netfail", ["delayed", "-n", "16" if c.tier == "quick" else "300"], timeout=900)
+        if out:
+            c.monitor("delayed-order", out)
+        out = None
     if c.replay and _replay_engine(c.replay).startswith("redial"):
         _redial(c, 1, replay=c.replay)
     elif c.replay:
